@@ -46,6 +46,8 @@ type RunSpec struct {
 type FaultSpec struct {
 	K      int  `json:"k"`     // fail the K-th driver call (-1: record only)
 	Elems  int  `json:"elems"` // deliver this many elements first
+	// Persist: the driver stays down, every later call fails too
+	Persist bool `json:"persist,omitempty"`
 	Record bool `json:"record,omitempty"`
 }
 
@@ -273,7 +275,7 @@ func handleBQL(req []byte) []byte {
 			rec = &wrapstore.Recorder{}
 			st = wrapstore.New(plain, rec)
 		} else {
-			fat = &wrapstore.FaultAt{K: r.Fault.K, Elems: r.Fault.Elems}
+			fat = &wrapstore.FaultAt{K: r.Fault.K, Elems: r.Fault.Elems, Persist: r.Fault.Persist}
 			st = wrapstore.New(plain, fat)
 		}
 	}
